@@ -399,7 +399,6 @@ fn required_probes(prop: &str) -> &'static [&'static str] {
         "C16" => &[
             "c16_result_shorter_than_original",
             "c16_result_longer_than_original",
-            "c16_write_skipped_already_formatted",
             "c16_read_side_failure_judged",
             "c16_undecodable_content_judged",
             "c16_check_on_formatted_content",
